@@ -95,11 +95,20 @@ func c15R1(p *core.Program, r *core.Report) {
 	comma := clauses[',']
 	g := graph(fn)
 	splitCalls := 0
-	for _, call := range core.Calls(comma, true) {
-		if core.CalleeName(info, call) != "" && !isLocalClosureCall(info, call) {
-			continue
+	// the split step: a call of the local closure that cuts an argument off, or of an unexported function / method
+	// of the package that does (it parses the piece: it reaches ParseTypeRef again)
+	isSplit := func(call *ast.CallExpr) bool {
+		if isLocalClosureCall(info, call) {
+			return true
 		}
-		if !isLocalClosureCall(info, call) {
+		callee := p.FuncOfObj(core.CalleeFunc(info, call))
+		if callee == nil || callee.Pkg != fn.Pkg || callee.Decl == nil || callee.Decl.Name.IsExported() {
+			return false
+		}
+		return reachableFrom(p, callee)[fn]
+	}
+	for _, call := range core.Calls(comma, true) {
+		if !isSplit(call) {
 			continue
 		}
 		splitCalls++
